@@ -41,7 +41,14 @@ RULE = ('projects are random DAGs of 1..7 libraries plus 1..2 executables create
         'links and built before anything is linked; a system function bound to the namesake shows in the printed sum and '
         'in DT_NEEDED (read with patchelf). Search directories: no link command (make -n) and no flag list of a real link '
         'step (in process, every generated project) may carry a -L into the build tree unless a library of that directory '
-        'is on the line by -l name (project libraries are handed over by path).')
+        'is on the line by -l name (project libraries are handed over by path). Languages: the own sources of every node '
+        '(library of any kind, executable) are C only, C++ only, or C and C++ in either listing order (a stream of its own); '
+        'the C++ part really needs the C++ run time (operator new, std::string, a vtable, an exception thrown and caught) '
+        'and contributes to the printed sum; in process, every archive file object must state the languages of all its '
+        'sources and of what it forwards, every linked binary the language of its driver, and every link step taking in '
+        'a C++ object (own, or a member of an archive anywhere in its closure) must be done by the C++ driver; one shape '
+        'project (mixed-language static / shared / dual libraries consumed directly, through chains of C-only archives '
+        'and through shared libraries by C-only and C++-only programs and libraries) is really built under two modes.')
 TRUSTED = ('R model ld_pass (single-pass archive semantics of GNU ld) validated against the real gcc/ld on this run',
            'R model ldso_dir ($ORIGIN substitution and lexical dot-dot resolution of the dynamic loader; no symlinked '
            'directories in the build tree) validated by running the built executables before and after moving the build '
@@ -93,6 +100,19 @@ SYSTEM_ENVS = [({}, []), ({'LDLIBS': '-lm'}, ['m']), ({'LDLIBS': '-lz -lm', 'LDF
 # (the soname) and lib<name>.so (what a link step names) are symbolic links created by steps of the build
 VERSIONS = [('1.2.3', '1'), ('2.0', '2'), ('0.9.1', '0'), ('3.1.4', '3.1'), ('10.0.0-rc1', '10')]
 
+# the languages of a node's own sources: (source files in listing order, bfg9000's language names).  The C++ part of a
+# node really needs the C++ run time (operator new, std::string, a virtual destructor, an exception thrown and caught),
+# so a link step that takes in such an object - its own or a member of an archive anywhere in its closure - must be done
+# by the C++ driver (or name the run-time library), whatever language the FIRST source of whichever library has
+LANGS = {'c': (['n%d.c'], ['c']), 'cxx': (['n%d.cpp'], ['c++']),
+         'c+cxx': (['n%d.c', 'n%d_rt.cpp'], ['c', 'c++']), 'cxx+c': (['n%d_rt.cpp', 'n%d.c'], ['c', 'c++'])}
+LANG_DRAW = ['c', 'c', 'c', 'cxx', 'c+cxx', 'c+cxx', 'cxx+c']
+
+
+def rt_value(i):
+    """what the C++ part of node i contributes to its value"""
+    return (5 + i) + 2
+
 
 def env_syslibs(env):
     """the system libraries that the LDLIBS of a configure environment names"""
@@ -112,17 +132,22 @@ def pkg_strings(p):
 class Node:
     """lopts: list of (tag, id): (0, k) STR_POOL[k]; (1, k) option object k; (3, text) a literal token.
     feat (system-level projects only): what the link options of this node mean for its C sources, see make_feat."""
-    __slots__ = ('kind', 'deps', 'lopts', 'pkgs', 'dir', 'uses', 'exe', 'feat', 'ver')
+    __slots__ = ('kind', 'deps', 'lopts', 'pkgs', 'dir', 'uses', 'exe', 'feat', 'ver', 'lang')
 
-    def __init__(self, kind, deps, lopts, pkgs, dir, uses, exe, feat=None, ver=None):
+    def __init__(self, kind, deps, lopts, pkgs, dir, uses, exe, feat=None, ver=None, lang=None):
         self.kind, self.deps, self.lopts, self.pkgs, self.dir, self.uses, self.exe = kind, deps, lopts, pkgs, dir, uses, exe
         self.feat = feat or {}
+        # the languages of the node's own sources, in the order the script lists them: see LANGS
+        self.lang = lang or 'c'
+        assert self.lang in LANGS, self.lang
         # (version, soversion) of the shared library of the node (version=/soversion= of shared_library()/library()): the
         # library file is lib<name>.so.<version>, reached through the links lib<name>.so.<soversion> and lib<name>.so
         self.ver = tuple(ver) if ver else None
 
     def to_json(self):
-        d = {k: getattr(self, k) for k in self.__slots__ if k not in ('feat', 'ver')}
+        d = {k: getattr(self, k) for k in self.__slots__ if k not in ('feat', 'ver', 'lang')}
+        if self.lang != 'c':
+            d['lang'] = self.lang
         if self.feat:
             d['feat'] = self.feat
         if self.ver:
@@ -132,7 +157,16 @@ class Node:
     @staticmethod
     def from_json(d):
         return Node(d['kind'], [tuple(x) for x in d['deps']], [tuple(x) for x in d['lopts']], d['pkgs'], d['dir'],
-                    d['uses'], d['exe'], d.get('feat'), d.get('ver'))
+                    d['uses'], d['exe'], d.get('feat'), d.get('ver'), d.get('lang'))
+
+    def sources(self, i):
+        """the node's own source files in the order the script lists them (without the plugin objects of a system-level
+        project, which come right after the main source)"""
+        return [t % i for t in LANGS[self.lang][0]]
+
+    def own_langs(self):
+        """the languages (bfg9000's names) of the node's own sources"""
+        return set(LANGS[self.lang][1])
 
     def opt_texts(self):
         """the link options as written in the build script: text for a string token, None for an option object"""
@@ -175,6 +209,24 @@ class Project:
 
     def has_static(self, i):
         return self.eff_kind(i) in ('static', 'dual')
+
+    def member_langs(self, i, consumer_static):
+        """the languages a link step of node i has to cope with, from the script alone: those of its own sources, of the
+        sources of every archive in its forwarding closure, and the language each shared library of the closure was linked
+        as"""
+        res = set(self.nodes[i].own_langs())
+        for x in self.reachable(self.user_libs(i, consumer_static)):
+            res |= {self.shared_lang(x // 3)} if x % 3 == 0 else self.nodes[x // 3].own_langs()
+        return res
+
+    def shared_lang(self, i):
+        """the language of the driver that links the shared library (or executable) of node i"""
+        return 'c++' if 'c++' in self.member_langs(i, False) else 'c'
+
+    def needs_cxx_runtime(self, i):
+        """does the dynamic link step of node i take in a C++ object (its own or a member of an archive of its closure)?"""
+        return 'c++' in self.nodes[i].own_langs() or any(
+            'c++' in self.nodes[x // 3].own_langs() for x in self.reachable(self.user_libs(i, False)) if x % 3 != 0)
 
     def ver_of(self, i):
         """(version, soversion) of the shared library that node i produces, None when it is not versioned (or when the
@@ -364,6 +416,8 @@ def gen_project(rng, rep=None, system=False, max_libs=7, mode=None, sysenv=None)
     nexe = rng.randint(1, 2)
     drawn = rng.choice(SYSTEM_MODES + ([] if system else [(False, False)]))
     mode = drawn if mode is None else tuple(mode)
+    # the languages are drawn from a stream of their own (seeded by the state of the main one, which it leaves alone)
+    lrng = random.Random(hash(rng.getstate()[1]))
     nodes = []
     whole_ok = {}
     for i in range(nlibs + nexe):
@@ -430,13 +484,14 @@ def gen_project(rng, rep=None, system=False, max_libs=7, mode=None, sysenv=None)
         uses = [j for j in dset if exe or rng.random() < 0.75]
         # versioned shared libraries (version=/soversion=), in every kind that can come out shared and in every directory
         ver = rng.choice(VERSIONS) if (not exe and kind != 'static' and rng.random() < 0.4) else None
-        nodes.append(Node(kind, deps, lopts, pkgs, rng.choice(DIRS), uses, exe, feat, ver))
+        nodes.append(Node(kind, deps, lopts, pkgs, rng.choice(DIRS), uses, exe, feat, ver, lrng.choice(LANG_DRAW)))
     p = Project(mode, nodes)
     if system and sysenv is not None:
         add_system_env(p, rng, sysenv[0], sysenv[1])
     if rep is not None:
         rep.count('mode:shared=%d,static=%d' % mode)
         for n in nodes:
+            rep.count('languages-of-%s:%s' % ('executable' if n.exe else 'library', n.lang))
             if not n.exe:
                 rep.count('kind:' + n.kind)
             if any(w for _, w in n.deps):
@@ -502,9 +557,9 @@ CORPUS = [
 ]
 
 
-def _sysnode(i, kind, deps, dir, uses, exe=False, spec=(), pkg=None, ver=None):
+def _sysnode(i, kind, deps, dir, uses, exe=False, spec=(), pkg=None, ver=None, lang=None):
     lopts, feat = make_feat(i, exe, list(spec), pkg)
-    return Node(kind, deps, lopts, [], dir, uses, exe, feat, ver)
+    return Node(kind, deps, lopts, [], dir, uses, exe, feat, ver, lang)
 
 
 def system_corpus():
@@ -582,6 +637,25 @@ def system_corpus():
             _sysnode(6, 'shared', [(3, True), (5, False)], 'lib/sub', [3, 5]),
             _sysnode(7, 'shared', [(2, False), (4, False)], 'bin', [2, 4], exe=True),
             _sysnode(8, 'shared', [(6, False), (5, False)], '', [5, 6], exe=True, spec=[('w', 2)])]))
+    # the language dimension: libraries of every kind whose sources mix C and C++ (in either listing order; the C++ part
+    # needs the C++ run time), consumed directly, through chains of C-only archives and through shared libraries by
+    # C-only and C++-only programs and shared libraries
+    for mode in SYSTEM_MODES[:2]:
+        res.append(Project(mode, [
+            _sysnode(0, 'static', [], 'lib', [], lang='c+cxx', spec=[('u', 3)]),
+            _sysnode(1, 'static', [(0, False)], 'a/b', [0]),
+            _sysnode(2, 'static', [], 'x.y', [], lang='cxx+c'),
+            _sysnode(3, 'shared', [], 'lib2', [], lang='c+cxx'),
+            _sysnode(4, 'dual', [], 'a/z', [], lang='c+cxx'),
+            _sysnode(5, 'static', [(1, False)], '', [1], spec=[('x', 4)]),
+            _sysnode(6, 'shared', [(5, False)], 'lib/sub', [5]),
+            _sysnode(7, 'default', [(2, False)], 'lib', [2], lang='cxx'),
+            _sysnode(8, 'shared', [(0, False)], 'bin', [0], exe=True),
+            _sysnode(9, 'shared', [(5, False)], '', [5], exe=True),
+            _sysnode(10, 'shared', [(1, False), (3, False)], 'bin', [1, 3], exe=True, lang='cxx'),
+            _sysnode(11, 'shared', [(6, False), (4, False)], 'a/b', [4, 6], exe=True),
+            _sysnode(12, 'shared', [(2, False), (4, True)], 'x.y', [2, 4], exe=True),
+            _sysnode(13, 'shared', [(7, False)], 'bin', [7], exe=True, lang='cxx+c')]))
     return res
 
 
@@ -655,7 +729,7 @@ class Real:
             lo = [STR_POOL[k] if t == 0 else (k if t == 3 else oo[k]) for t, k in n.lopts]
             kw = {'libs': libs, 'link_options': lo, 'packages': [self.pkgs[p] for p in n.pkgs]}
             name = posixpath.join(n.dir, 'n%d' % i)
-            src = ['n%d.c' % i]
+            src = n.sources(i)
             if n.ver and not n.exe and n.kind != 'static':
                 kw.update(version=n.ver[0], soversion=n.ver[1])
             if n.exe:
@@ -900,6 +974,53 @@ def stage_w_rpath(rep, rng, n):
     return common.compare_model(rep, 'W:rpath', calls, impl, dec, vm_limit=60)
 
 
+LANG_IDS = {'c': 0, 'c++': 1, 'objc': 2, 'objc++': 3, 'f77': 4, 'f95': 5, 'java': 6}
+
+
+def lang_id(x):
+    """a language name on the wire (Graph/LinkLangs.v); 7.. are names the cc linkers do not know"""
+    return LANG_IDS.get(x, 7 + (sum(map(ord, str(x))) % 3))
+
+
+def stage_w_langs(rep, rng, projects):
+    """The language bookkeeping of the real link steps against Graph/LinkLangs.v: input_langs of every step, the
+    languages the archive file object is given (ArLinker.output_file), the driver language and the language the linked
+    binary is given (Link.__find_linker, CcLinker.output_file), and CcLinker.can_link of the real C and C++ linkers on
+    drawn language lists."""
+    from bfg9000.iterutils import iterate
+    calls, impl = [], []
+    for proj in projects:
+        real = Real(proj)
+        for n, cs, c, out in real.steps:
+            own = [lang_id(f.lang) for f in c.files if f.lang is not None]
+            libs = [[lang_id(j) for j in iterate(l.lang)] for l in c.libs]
+            rep.case('langs:%r:%r:%d' % (own, libs, cs), len(set(own + [j for l in libs for j in l])) > 1)
+            calls.append(('link.input_langs', [own, libs])); impl.append([lang_id(x) for x in c.input_langs])
+            if cs:
+                calls.append(('link.input_langs', [own, libs])); impl.append([lang_id(x) for x in iterate(out.lang)])
+            else:
+                calls.append(('link.driver', [own, libs])); impl.append(lang_id(c.linker.lang))
+                calls.append(('link.driver', [own, libs])); impl.append(
+                    lang_id(out.lang) if isinstance(out.lang, str) else ['not-one-language', repr(out.lang)])
+    env = make_env((True, False))
+    fmt = env.target_platform.object_format
+    names = ['c', 'c', 'c++', 'c++', 'objc', 'objc++', 'f77', 'f95', 'java', 'rc', 'yacc', 'lex']
+    for drv in ('c', 'c++'):
+        linker = env.builder(drv).linker('executable')
+        for _ in range(40):
+            ls = [rng.choice(names) for _ in range(rng.choice([0, 1, 1, 2, 2, 3, 4]))]
+            calls.append(('link.can_link', [lang_id(drv), [lang_id(x) for x in ls]]))
+            impl.append(bool(linker.can_link(fmt, ls)))
+
+    def dec_l(name, r):
+        if name == 'link.input_langs':
+            return list(r)
+        if name == 'link.driver':
+            return d_opt(lambda x: x, r)
+        return d_bool(r)
+    return common.compare_model(rep, 'W:langs', calls, impl, dec_l, vm_limit=60)
+
+
 # ----------------------------------------------------------------------------- direct oracle on the implementation
 def classify(proj, fixed, kind):
     """finding classes of a failing project: predicates on the input and on the detected variant"""
@@ -911,6 +1032,44 @@ def classify(proj, fixed, kind):
     return tuple(cl)
 
 
+def oracle_langs(rep, proj, fixed, n, cs, c, out):
+    """Languages.  What a library file says about its languages is what every consumer's choice of link driver rests
+    on: an archive stands for the languages of ALL its members' sources and of everything it forwards (in whatever order
+    the script lists the sources), a linked binary for the language of the driver that linked it; and a link step that
+    takes in a C++ object - its own or a member of an archive anywhere in its closure - is done by the C++ driver or
+    names the C++ run-time library.  Expected values from the script alone."""
+    from bfg9000.iterutils import iterate
+    bad = 0
+    got = sorted(set(iterate(out.lang)))
+    want = sorted(proj.member_langs(n, True)) if cs else [proj.shared_lang(n)]
+    rep.count('oracle:languages-of-%s:%s' % ('archive' if cs else 'linked binary', '+'.join(want)))
+    if got != want:
+        bad += 1
+        rep.fail('%s n%d (own sources %r, listed in this order; closure %r): the file object %s says its languages are %r, '
+                 'the sources that go into it%s are written in %r' % (
+                     'static library' if cs else 'link of', n, proj.nodes[n].sources(n),
+                     proj.reachable(proj.user_libs(n, cs)), out.path.suffix, out.lang,
+                     ' and the libraries it forwards' if cs else ' (driver language)', want),
+                 {'project': proj.to_json(), 'node': n, 'kind': 'langs', 'static': bool(cs), 'got': got, 'want': want},
+                 classes=classify(proj, fixed, 'langs'))
+    if not cs and proj.needs_cxx_runtime(n):
+        byname = [flag_text(f) for f in c.lib_flags() if isinstance(flag_text(f), str)]
+        rep.count('oracle:link-step-taking-in-c++-objects:' + ('own' if 'c++' in proj.nodes[n].own_langs() else
+                                                                 'through archives only'))
+        if c.linker.lang != 'c++' and '-lstdc++' not in byname:
+            bad += 1
+            rep.fail('link of n%d takes in C++ objects (own sources %r; archives of its closure with C++ sources: %r) but is '
+                     'done by the %r driver %r without -lstdc++ (library flags %r): undefined references to the C++ run time' % (
+                         n, proj.nodes[n].sources(n),
+                         ['n%d %r' % (x // 3, proj.nodes[x // 3].sources(x // 3))
+                          for x in proj.reachable(proj.user_libs(n, False))
+                          if x % 3 != 0 and 'c++' in proj.nodes[x // 3].own_langs()],
+                         c.linker.lang, getattr(c.linker, 'command', None) and [str(w) for w in c.linker.command], byname),
+                     {'project': proj.to_json(), 'node': n, 'kind': 'langs-driver', 'driver': c.linker.lang},
+                     classes=classify(proj, fixed, 'langs'))
+    return bad
+
+
 def oracle_project(rep, proj, fixed):
     """The property itself on the real objects, without the model: closure, order, forwarded options,
     relative rpaths that resolve.  Returns number of failures."""
@@ -919,6 +1078,7 @@ def oracle_project(rep, proj, fixed):
     real = Real(proj)
     for n, cs, c, out in real.steps:
         user = proj.user_libs(n, cs)
+        bad += oracle_langs(rep, proj, fixed, n, cs, c, out)
         reach = proj.reachable(user)
         if cs:
             got = sorted(set(real.lib_id(l) for l in c.libs))
@@ -1089,6 +1249,8 @@ def value_of(proj, i, memo, forced=()):
         v += sum(w for _, w in ft.get('plugs', []))
         v += sum(w for name, w in ft.get('xplugs', []) if name in forced)
         v += sum(val for _, val in ft.get('defs', []))
+        if n.lang != 'c':
+            v += rt_value(i)
         if ft.get('pkg'):
             v += ft['pkg']['def'][1] + ft['pkg']['plug'][1]
         memo[i] = v
@@ -1112,6 +1274,8 @@ def write_project(proj, src):
         if pk:
             plugs.append(tuple(pk['plug']))
             defs.append(pk['def'][0])
+        cxx_main = n.lang == 'cxx'            # the main source itself is C++
+        incs = '#include <stdio.h>\n' if n.exe else ''
         protos = ''.join('long long f%d(void);\n' % j for j in n.uses)
         # a plugin is referenced weakly: nothing but the link option pulls its object out of the archive
         protos += ''.join('extern long long %s(void) __attribute__((weak));\n' % nm for nm, _ in plugs)
@@ -1126,25 +1290,51 @@ def write_project(proj, src):
         # the system library, far from 0 when it reaches a project library that merely has the same name
         for nm in ft.get('sys', []):
             hdr, decl, expr0, _ = SYSLIBS[nm]
-            protos = '#include <%s>\n' % hdr + protos + (decl % i if decl else '')
+            incs += '#include <%s>\n' % hdr
+            protos += (decl % i if decl else '')
             terms.append(expr0 % i if '%d' in expr0 else expr0)
+        # the C++ part of the node (a source of its own next to the C source, or the main source itself): it needs the
+        # C++ run time - operator new/delete, std::string, a vtable, an exception thrown and caught
+        rt_src = ''
+        if n.lang != 'c':
+            rt_src = ('#include <string>\n#include <stdexcept>\nnamespace {\nstruct Box%(i)d {\n    std::string s;\n'
+                      '    explicit Box%(i)d(long long k) : s((std::string::size_type)k, \'x\') {}\n'
+                      '    virtual ~Box%(i)d() {}\n'
+                      '    virtual long long get() const { if (s.size() > 2) throw std::length_error("rt"); return -1000; }\n'
+                      '};\n}\nstatic volatile long long rt%(i)d_seed = %(k)d;\n'
+                      'extern "C" long long rt%(i)d(void) {\n    Box%(i)d *b = new Box%(i)d(rt%(i)d_seed);\n'
+                      '    long long r = (long long)b->s.size();\n'
+                      '    try { r += b->get(); } catch (const std::exception &e) { r += (long long)std::string(e.what()).size(); }\n'
+                      '    delete b;\n    return r;\n}\n' % {'i': i, 'k': 5 + i})
+            protos += 'long long rt%d(void);\n' % i
+            terms.append('rt%d()' % i)
         # the code of a node refers to a global variable and a global function it defines itself (through the
         # variable's address as well): in a shared object such references need position-independent code, so the
         # objects of an archive that ends up in a shared library must have been compiled for that
         protos += ('long long own%d_state = %d;\nlong long *own%d_ptr = &own%d_state;\n'
                    'long long own%d(void) { return own%d_state + *own%d_ptr; }\n' % (i, i + 1, i, i, i, i, i))
         expr = '(own%d() - own%d_state) + %s' % (i, i, ' + '.join(terms))
-        with open(os.path.join(src, 'n%d.c' % i), 'w') as f:
+        srcs = n.sources(i)
+        main_name = [x for x in srcs if not x.endswith('_rt.cpp')][0]
+        xo, xc = ('extern "C" {\n', '}\n') if cxx_main else ('', '')
+        with open(os.path.join(src, main_name), 'w') as f:
+            f.write(incs + (rt_src if cxx_main else '') + xo + protos)
             if n.exe:
-                f.write('#include <stdio.h>\n%sint main(void) { printf("%%lld\\n", (long long)(%s)); return 0; }\n' % (
-                    protos, expr))
+                f.write('static long long value%d(void) { return %s; }\n%s'
+                        'int main(void) { printf("%%lld\\n", (long long)value%d()); return 0; }\n' % (i, expr, xc, i))
             else:
-                f.write('%slong long f%d(void) { return %s; }\n' % (protos, i, expr))
-        files = ['n%d.c' % i]
+                f.write('long long f%d(void) { return %s; }\n%s' % (i, expr, xc))
+        if n.lang in ('c+cxx', 'cxx+c'):
+            with open(os.path.join(src, 'n%d_rt.cpp' % i), 'w') as f:
+                f.write(rt_src)
+        plug_files = []
         for nm, w in plugs:
-            files.append('n%d_%s.c' % (i, nm))
-            with open(os.path.join(src, files[-1]), 'w') as f:
-                f.write('long long %s_state = %d;\nlong long %s(void) { return %s_state; }\n' % (nm, w, nm, nm))
+            plug_files.append('n%d_%s.%s' % (i, nm, 'cpp' if cxx_main else 'c'))
+            with open(os.path.join(src, plug_files[-1]), 'w') as f:
+                f.write('%slong long %s_state = %d;\nlong long %s(void) { return %s_state; }\n%s' % (xo, nm, w, nm, nm, xc))
+        # the plugin objects come right after the main source
+        k = srcs.index(main_name) + 1
+        files = srcs[:k] + plug_files + srcs[k:]
         libs = ', '.join((('whole_archive(static_library(n%d))' if proj.eff_kind(j) == 'dual' else 'whole_archive(n%d)') % j)
                          if w else ('n%d' % j) for j, w in n.deps)
         name = posixpath.join(n.dir, 'n%d' % i)
@@ -1388,6 +1578,9 @@ def system_project(rep, proj, fixed, keep=False):
             kind = 'order' if (not predicted_ok or 'undefined reference' in err) else 'build'
             if 'multiple definition' in err and any(plain_before_whole(l) for l in lines.values()):
                 kind = 'whole-plain'
+            if re.search(r"undefined reference to `(__gxx_personality|__cxa_|operator (new|delete)|std::|_Unwind_|"
+                         r"vtable for __cxxabiv1)", err) and not re.search(r"undefined reference to `f\d+'", err):
+                kind = 'build-cxx-runtime'      # only the C++ run time is missing: the link driver, not the order
             rep.fail('the generated project does not build: %s' % err[-500:],
                      {'project': proj.to_json(), 'kind': kind, 'stderr': err[-3000:], 'link_lines': lines},
                      classes=classify(proj, fixed, kind))
@@ -1625,12 +1818,14 @@ def run_check(rep, thorough):
     projects = corpus_projects() + [gen_project(rng, rep) for _ in range(nproj)] + sysprojs
     dis = stage_w_links(rep, rng, fixed, projects)
     dis2 = stage_w_rpath(rep, rng, 600 if thorough else 120)
+    # (a stream of its own: the stages after it draw what they drew before it existed)
+    dis3 = stage_w_langs(rep, random.Random(rep.seed + 14), projects if thorough else projects[:120] + sysprojs)
     stage_r_ld(rep, rng, 400 if thorough else 70)
     # direct oracle on the implementation (10x when the model tie is broken)
     # failing inputs that are not known findings (those must not hide a broken correspondence)
     v0 = len(rep.violations)
     nfail = 0
-    mult = 10 if (dis or dis2) else 1
+    mult = 10 if (dis or dis2 or dis3) else 1
     oprojects = projects + [gen_project(rng, None) for _ in range(nproj * (mult - 1))]
     for p in oprojects:
         if len(rep.violations) - v0 >= 25:
@@ -1639,7 +1834,7 @@ def run_check(rep, thorough):
         nfail += oracle_project(rep, p, fixed)
     rep.stage('oracle:property-on-real-objects', projects=len(oprojects), failures_including_known_findings=nfail,
               violations=len(rep.violations) - v0)
-    if dis or dis2 or len(rep.violations) > v0:
+    if dis or dis2 or dis3 or len(rep.violations) > v0:
         sysprojs = sysprojs + [gen_project(rng, None, system=True, max_libs=6, mode=SYSTEM_MODES[k % 3],
                                            sysenv=SYSTEM_ENVS[(k + 1) % len(SYSTEM_ENVS)]) for k in range(nsys)]
     sbad, sdis = stage_system(rep, rng, fixed, sysprojs, None if thorough else 7)
@@ -1653,7 +1848,7 @@ def run_check(rep, thorough):
     rep.stage('law:strings-kept-with-multiplicity', holds=not getattr(rep, 'c14_law', None))
     if getattr(rep, 'c14_law', None) and not rep.n_with_input:
         rep.fail(rep.c14_law[0], rep.c14_law[1], found_input=False)
-    for d, what in ((dis, 'W:link'), (dis2, 'W:rpath')):
+    for d, what in ((dis, 'W:link'), (dis2, 'W:rpath'), (dis3, 'W:langs')):
         if d and not rep.n_with_input:
             i, call, iv, mv = d[0]
             rep.fail('%s - model and implementation disagree (%d cases), e.g. %s: impl %r, model %r' % (
